@@ -18,6 +18,28 @@ CLAIMED = {
         "Trusted: jinja2's lexer/parser, CPython's ast.parse, the atom-constraint table in vlib/constraints.py "
         "(each row justified by a Python construct and re-checked).",
         "DESIGN.md 4/C01"),
+    "C02": (
+        "slot agreement on skeletons of types/%proto.py.j2 + ast checks of the schema loaders",
+        "Decides, for every covering valuation, which schema accessor fills every slot of every emitted field / map / "
+        "enum / manifest declaration and that the declaring loops are unfiltered; plus the Python derivations of "
+        "proto_type, Field.name and the field loaders. The byte/JSON round trip (proto-plus run-time) is not claimed.",
+        "Trusted: jinja2 parser, ast; proto-plus semantics of Field/RepeatedField/MapField keywords.",
+        "DESIGN.md 4/C02"),
+    "C03": (
+        "slot + path rules on skeletons of grpc transports, base transport and both clients",
+        "Decides stub construction slots (path, arity accessor, serializer/deserializer of the declared types, caching "
+        "key), sibling agreement sync/asyncio, dispatch-key agreement across transport table and clients, and the "
+        "single-call path with pass-through retry/timeout/metadata, response/await guards and request coercion arms. "
+        "Wire decoding and gRPC semantics are not claimed.",
+        "Trusted: jinja2 parser, ast; grpc / api_core behaviour.",
+        "DESIGN.md 4/C03"),
+    "C10": (
+        "order-taint dataflow over Python ast + typed template access paths; call-graph reachability of ambient inputs",
+        "Whole property under the stated container assumption: every set-derived order is sorted with an injective key "
+        "or consumed order-insensitively before it can reach emitted text, in Python and in every template access path; "
+        "no clock/RNG/environment/cwd/identity value is reachable from the generator; serialisers sort keys.",
+        "Assumes dict / protobuf container iteration is insertion-ordered and third-party serialisers are deterministic.",
+        "DESIGN.md 4/C10"),
 }
 
 NOT_APPLICABLE = {
